@@ -46,9 +46,10 @@ CLAIMED = {
          "(Satisfy's break-in-switch, range end parsed from the first field) - see known_findings.txt.",
          "Resources.Satisfy compares cpu, memory, static ranges (subset) and the number of remaining ports; makeTaskForMesosResources takes every "
          "dynamic port and the control port as the minimum of what is left of the offer's ports above the reserved cut, only when something is "
-         "left (a third genuine defect, Ranges.Min of an empty range, repaired), and subtracts it before the next one is taken. Not under contract: "
-         "subtraction of cpus, memory and static ports between tasks on one offer (needs a model of the mesos-go resource algebra) and the OFFERS "
-         "handler's bookkeeping. strings.Split/Contains/TrimSpace, strconv.ParseUint are assumed deterministic functions (uninterpreted); mesos-go getters are "
+         "left (a third genuine defect, Ranges.Min of an empty range, repaired), and subtracts it before the next one is taken. The task's whole request (cpu, memory, static ports, executor resources) is "
+         "subtracted from what is left of the offer once it is built (a fourth genuine defect, repaired); reversed port ranges are refused (a fifth). "
+         "Not under contract: the mesos-go resource algebra itself (that Subtract really removes what it is given, e.g. for ports carrying a role), a dynamic "
+         "port coinciding with one of the same task's static ports, and the OFFERS handler's bookkeeping (unused offers declined). strings.Split/Contains/TrimSpace, strconv.ParseUint are assumed deterministic functions (uninterpreted); mesos-go getters are "
          "executed symbolically; precondition: operators are Equals and no attribute is constrained twice inside one list; slice parameters modelled at "
          "offset 0; append modelled as copy.",
          "DESIGN.md §6 C05"),
@@ -60,7 +61,7 @@ CLAIMED = {
          "facts plus CAS atomicity.",
          "Assumed: Consul linearizable reads and atomic CAS on ModifyIndex (trusted contracts of api.KV.Get/CAS in contracts/ext/base.gvc), other writers "
          "never decrease the key, strconv.ParseUint/FormatUint mutually inverse (uninterpreted). The START_ACTIVITY cancellation when no number can be "
-         "obtained is checked under C10's site clauses once those are claimed. The file-backed counter of apricot/local (documented unsafe) is not claimed.",
+         "obtained is checked under C10's site clauses once those are claimed. The file-backed counter of apricot/local (development backend) is under contract for what can be said per call: the read-increment-write cycle runs under a process-wide mutex, the result is never 0 and the counter does not wrap (both were genuine defects, repaired); it is not safe across processes and a lost counter file restarts the numbering - not claimed.",
          "DESIGN.md §6 C07"),
  "C01": ("Proof obligations on the real code, for all paths: (1) the fsm.Events literal of newEnvironment is exactly the documented graph (structural "
          "obligation read from the SSA constants); (2) closed world: every call of Environment.setState and fsm.FSM.SetState in the repository sits in a "
